@@ -5,6 +5,7 @@
   `Core/BinFlux.lean`.)
 -/
 import Synphot.Core.Basic
+import Synphot.Core.Wave
 
 namespace Synphot
 variable {K : Type} [Field K] [LinearOrder K] [IsStrictOrderedRing K]
@@ -23,6 +24,14 @@ def binEdges (c : List K) : Except Err (List K) :=
       let m := m0 :: mt
       .ok ((2 * c0 - m0) :: m ++ [2 * c.getLastD c0 - m.getLastD m0])
   | _, _ => .error .synphotError   -- size < 2
+
+/-- the public `calculate_bin_edges(centers)`: at least two centres, which must be valid wavelengths
+(positive, strictly monotone, no duplicates), then the midpoint geometry `binEdges` -/
+def calcBinEdges (c : List K) : Except Err (List K) :=
+  if c.length < 2 then .error .synphotError
+  else do
+    validateWavelengths c
+    binEdges c
 
 /-- `np.abs(edges[1:] - edges[:-1])` -/
 def absDiffs : List K → List K
